@@ -2,6 +2,7 @@ package checks
 
 import (
 	"fmt"
+	"io"
 	"net/netip"
 	"time"
 
@@ -302,6 +303,36 @@ func (in *c05Injector) inject() {
 		spec.Controlled = &theirs
 	}
 	keep := (role == "controlling" && own >= theirs) || (role == "controlled" && own < theirs)
+	// the same conflicting request, not authentic (signed with another password): it is not the peer's, so it
+	// decides nothing - no answer, no role change, whatever the tie-breakers say
+	unauth := !liteTarget && c.T.Bias(1, 6, "unauthenticated-conflict")
+	if unauth {
+		spec.Key = "somebody-elses-password-0123456789"
+		c.Fault("unauthenticated-conflict")
+	}
+	// socket fault: the answer (the 487 of an agent that keeps its role) cannot be written - the stream of an
+	// ICE-TCP peer that hung up, a closed socket: the decision stands all the same
+	var faulted []*simnet.Sock
+	if keep && !unauth && c.T.Bias(1, 6, "answer-cannot-be-written") {
+		for _, so := range d.W.Sockets() {
+			if so.Host() == th && so.Tag != "service" && !so.Closed() {
+				faulted = append(faulted, so)
+			}
+		}
+		d.W.Lock()
+		for _, so := range faulted {
+			so.WriteErr = io.ErrClosedPipe
+		}
+		d.W.Unlock()
+		c.Fault("conflict-answer-write-error")
+	}
+	defer func() {
+		d.W.Lock()
+		for _, so := range faulted {
+			so.WriteErr = nil
+		}
+		d.W.Unlock()
+	}()
 
 	before := map[uint64]bool{}
 	for _, q := range d.W.InFlight() {
@@ -340,60 +371,81 @@ func (in *c05Injector) inject() {
 		// the replies are consumed here so that they do not reach the real peer as stray responses
 		d.W.Drop(q)
 	}
-	for _, m := range replies {
-		if m.Class == stun.ClassSuccessResponse {
-			c.Failf("C05/success-response-to-conflict", "conflicting request (role=%s own=%#x theirs=%#x) was answered with a success response", role, own, theirs)
-		}
-	}
-	if keep {
-		ok := len(replies) == 1 && replies[0].Class == stun.ClassErrorResponse && replies[0].ErrorCode == 487
-		if ok && stun.MessageIntegrity([]byte(target.Pwd)).Check(replies[0].M) != nil {
-			c.Failf("C05/487-not-authentic", "487 response does not verify under the receiver's password")
-		}
-		if !ok && !c.Failed() {
-			c.Failf("C05/keep-without-487", "role=%s own=%#x theirs=%#x: expected exactly one 487 error response, got %d replies %v", role, own, theirs, len(replies), describeMsgs(replies))
-		}
-		if ok && !c.Failed() && c.T.Bias(1, 3, "dup-conflict") {
-			// the same datagram once more (duplicated on the path, or the peer's retransmission after the first
-			// 487 was lost): the decision and the answer are the same
-			seen := map[uint64]bool{}
-			for _, q := range d.W.InFlight() {
-				seen[q.ID] = true
-			}
-			dg2 := d.W.Inject(src, dst, dg.Payload, "role-conflict-duplicate")
-			c.Fault("conflict-duplicated")
-			if res, _ := d.S.Deliver(dg2); res == simnet.Delivered {
-				n487 := 0
-				for _, q := range d.W.InFlight() {
-					if seen[q.ID] || !ids[q.SockID] {
-						continue
-					}
-					if m := rig.Decode(q.Payload); m.IsSTUN && m.TxID == txid {
-						if m.Class == stun.ClassErrorResponse && m.ErrorCode == 487 {
-							n487++
-						} else {
-							c.Failf("C05/duplicate-conflict-answered-differently", "the second delivery of the conflicting request was answered with %s/%s err=%d", m.Method, m.Class, m.ErrorCode)
-						}
-						d.W.Drop(q)
-					}
-				}
-				if n487 != 1 && !c.Failed() {
-					c.Failf("C05/keep-without-487/duplicate", "role=%s own=%#x theirs=%#x: the second delivery of the same conflicting request got %d 487 answers (the first got one)", role, own, theirs, n487)
-				}
-			}
-		}
-	} else {
+	judge := true
+	if unauth {
 		if len(replies) != 0 {
-			c.Failf("C05/switch-with-reply", "role=%s own=%#x theirs=%#x: receiver must switch silently, got %v", role, own, theirs, describeMsgs(replies))
+			c.Failf("C05/unauthenticated-conflict-answered", "a conflicting request that does not verify under the agent's password (role=%s own=%#x theirs=%#x) was answered: %v", role, own, theirs, describeMsgs(replies))
 		}
-		if role == "controlling" {
-			in.role[target.Name] = "controlled"
+		// no role change either: the role is read off the wire below
+		c.Probe("unauthenticated-conflict-ignored")
+		judge = false
+	}
+	if len(faulted) > 0 {
+		d.W.Lock()
+		for _, so := range faulted {
+			so.WriteErr = nil
+		}
+		d.W.Unlock()
+		faulted = nil
+		c.Probe("conflict-answer-lost-to-write-error")
+		judge = false // no answer can be seen; the kept role is verified off the wire below
+	}
+	if judge {
+		for _, m := range replies {
+			if m.Class == stun.ClassSuccessResponse {
+				c.Failf("C05/success-response-to-conflict", "conflicting request (role=%s own=%#x theirs=%#x) was answered with a success response", role, own, theirs)
+			}
+		}
+		if keep {
+			ok := len(replies) == 1 && replies[0].Class == stun.ClassErrorResponse && replies[0].ErrorCode == 487
+			if ok && stun.MessageIntegrity([]byte(target.Pwd)).Check(replies[0].M) != nil {
+				c.Failf("C05/487-not-authentic", "487 response does not verify under the receiver's password")
+			}
+			if !ok && !c.Failed() {
+				c.Failf("C05/keep-without-487", "role=%s own=%#x theirs=%#x: expected exactly one 487 error response, got %d replies %v", role, own, theirs, len(replies), describeMsgs(replies))
+			}
+			if ok && !c.Failed() && c.T.Bias(1, 3, "dup-conflict") {
+				// the same datagram once more (duplicated on the path, or the peer's retransmission after the first
+				// 487 was lost): the decision and the answer are the same
+				seen := map[uint64]bool{}
+				for _, q := range d.W.InFlight() {
+					seen[q.ID] = true
+				}
+				dg2 := d.W.Inject(src, dst, dg.Payload, "role-conflict-duplicate")
+				c.Fault("conflict-duplicated")
+				if res, _ := d.S.Deliver(dg2); res == simnet.Delivered {
+					n487 := 0
+					for _, q := range d.W.InFlight() {
+						if seen[q.ID] || !ids[q.SockID] {
+							continue
+						}
+						if m := rig.Decode(q.Payload); m.IsSTUN && m.TxID == txid {
+							if m.Class == stun.ClassErrorResponse && m.ErrorCode == 487 {
+								n487++
+							} else {
+								c.Failf("C05/duplicate-conflict-answered-differently", "the second delivery of the conflicting request was answered with %s/%s err=%d", m.Method, m.Class, m.ErrorCode)
+							}
+							d.W.Drop(q)
+						}
+					}
+					if n487 != 1 && !c.Failed() {
+						c.Failf("C05/keep-without-487/duplicate", "role=%s own=%#x theirs=%#x: the second delivery of the same conflicting request got %d 487 answers (the first got one)", role, own, theirs, n487)
+					}
+				}
+			}
 		} else {
-			in.role[target.Name] = "controlling"
-		}
-		c.Probe("forged-conflict-switched-" + role)
-		if liteTarget {
-			in.liteSwitched = true
+			if len(replies) != 0 {
+				c.Failf("C05/switch-with-reply", "role=%s own=%#x theirs=%#x: receiver must switch silently, got %v", role, own, theirs, describeMsgs(replies))
+			}
+			if role == "controlling" {
+				in.role[target.Name] = "controlled"
+			} else {
+				in.role[target.Name] = "controlling"
+			}
+			c.Probe("forged-conflict-switched-" + role)
+			if liteTarget {
+				in.liteSwitched = true
+			}
 		}
 	}
 	// differential: no pair / selection / callback change caused by the request
